@@ -254,7 +254,7 @@ def gen_net(rng, n_nodes=None, libs=('lin', 'sat', 'osc', 'leak', 'integ'), max_
             if key in seen:
                 continue
             seen.add(key)
-            a = {'weight': (_grid(rng, -2.0, 2.0, 32) or 0.75)}
+            a = {'weight': (_grid(rng, -2.0, 2.0, 32) or 0.75) if rng.random() > 0.07 else 0.0}   # exactly 0 is legal
             if delays:
                 a.update(delays(rng))
             (sk, sname) = sk if isinstance(sk, tuple) else (sk, sk + uniq)
@@ -447,7 +447,7 @@ def gen_aliased(rng, uniq='', hier=None, build='python', libs=('lin', 'leak', 's
             seen.add((s, t))
             sk, tk = kind_of[s.split('/')[-1]], kind_of[t.split('/')[-1]]
             out.append([f'{s}/{sk}{uniq}/{LIB[sk]["out"]}', f'{t}/{tk}{uniq}/{LIB[tk]["in"]}',
-                        {'weight': (_grid(rng, -2.0, 2.0, 32) or 0.75)}])
+                        {'weight': (_grid(rng, -2.0, 2.0, 32) or 0.75) if rng.random() > 0.07 else 0.0}])
         return out
     if hier is None:
         hier = rng.random() < 0.4
